@@ -31,6 +31,80 @@ fn main() {
             println!("parse_with_options::<f64, integer-internal-separator format>(b\"1.123456789\") = {r:?} (expected Ok(1.123456789))");
             if r == Ok(1.123456789) { 0 } else { 1 }
         },
+        // F4: buffer_size_const ignored the fixed-size scratch the decimal integer writers need (10 bytes for the exponent,
+        // 20 for the digits): writing into a buffer of exactly the documented size panicked.
+        "f4" => {
+            use core::num::{NonZeroI32, NonZeroUsize};
+            const F: u128 = lexical_core::format::STANDARD;
+            let mut bad = 0;
+            for (mind, maxd, nb, pb, v) in [(100usize, 0usize, -4i32, 4i32, 1.5e10f64), (0, 1, -50, 13, -2.747146701520022e-44)] {
+                let o = lexical_core::WriteFloatOptions::builder().min_significant_digits(NonZeroUsize::new(mind)).max_significant_digits(NonZeroUsize::new(maxd))
+                    .negative_exponent_break(NonZeroI32::new(nb)).positive_exponent_break(NonZeroI32::new(pb)).build().unwrap();
+                let n = o.buffer_size_const::<f64, F>();
+                let o2 = o.clone();
+                let r = std::panic::catch_unwind(move || { let mut b = vec![0u8; n]; lexical_core::write_with_options::<f64, F>(v, &mut b, &o2).len() });
+                println!("min_digits={mind} max_digits={maxd} breaks=({nb},{pb}) buffer_size_const={n} write({v:e}) -> {:?}", r.as_ref().map_err(|_| "PANIC"));
+                if r.is_err() { bad += 1; }
+            }
+            bad
+        },
+        // F5: slow_binary took one digit more than Number::exponent accounts for (radix 8 with leading digit 1, radix 32 < G)
+        #[cfg(feature = "power-of-two")]
+        "f5" => {
+            const F8: u128 = lexical_core::NumberFormatBuilder::from_radix(8);
+            let o = lexical_core::ParseFloatOptions::builder().exponent(b'^').build().unwrap();
+            let s = b"1.00000000000000000200001";
+            let r = lexical_core::parse_with_options::<f64, F8>(s, &o);
+            println!("radix 8: parse({}) = {r:?} (exact value is 1 + 2*8^-18 + 8^-23, correctly rounded: 1.0000000000000002)", String::from_utf8_lossy(s));
+            if r == Ok(1.0000000000000002) { 0 } else { 1 }
+        },
+        // F2: formats whose exponent base differs from the mantissa radix went through the same-radix fast path
+        #[cfg(feature = "power-of-two")]
+        "f2" => {
+            use core::num::NonZeroU8;
+            const HEX: u128 = lexical_core::NumberFormatBuilder::new().mantissa_radix(16).exponent_base(NonZeroU8::new(2)).exponent_radix(NonZeroU8::new(10)).build_strict();
+            let o = lexical_core::ParseFloatOptions::builder().exponent(b'^').build().unwrap();
+            let r = std::panic::catch_unwind(|| lexical_core::parse_with_options::<f64, HEX>(b"1.8^3", &o));
+            println!("hex float (radix 16, exponent base 2): parse(\"1.8^3\") = {:?} (expected Ok(12.0))", r.as_ref().map_err(|_| "PANIC"));
+            if matches!(r, Ok(Ok(v)) if v == 12.0) { 0 } else { 1 }
+        },
+        // F8: zero mantissa with an exponent outside the fast-path range reached binary(): shift by 64 / garbage
+        #[cfg(feature = "power-of-two")]
+        "f8" => {
+            const F32_: u128 = lexical_core::NumberFormatBuilder::from_radix(32);
+            let o = lexical_core::ParseFloatOptions::builder().exponent(b'^').build().unwrap();
+            let r = std::panic::catch_unwind(|| lexical_core::parse_with_options::<f64, F32_>(b"0^77", &o));
+            println!("radix 32: parse(\"0^77\") = {:?} (expected Ok(0.0))", r.as_ref().map_err(|_| "PANIC"));
+            if matches!(r, Ok(Ok(v)) if v == 0.0) { 0 } else { 1 }
+        },
+        // F9: values in (1/2, 1) of the smallest subnormal were flushed to zero instead of rounding up
+        #[cfg(feature = "power-of-two")]
+        "f9" => {
+            const F32_: u128 = lexical_core::NumberFormatBuilder::from_radix(32);
+            let o = lexical_core::ParseFloatOptions::builder().exponent(b'^').build().unwrap();
+            let r = lexical_core::parse_with_options::<f32, F32_>(b"1V^-V", &o);
+            println!("radix 32: parse::<f32>(\"1V^-V\") = {r:?} (63 * 2^-155 = 0.98 of the smallest subnormal; expected Ok(1e-45))");
+            if r == Ok(f32::from_bits(1)) { 0 } else { 1 }
+        },
+        // F6 / F7: separator look-around predicates is_ilc (@internal) and is_itc (@first)
+        #[cfg(feature = "format")]
+        "f6" => {
+            use core::num::NonZeroU8;
+            const ILC: u128 = lexical_core::NumberFormatBuilder::new().digit_separator(NonZeroU8::new(b'_')).internal_digit_separator(true).leading_digit_separator(true).consecutive_digit_separator(true).build_strict();
+            let o = lexical_core::ParseFloatOptions::new();
+            let r = lexical_core::parse_with_options::<f64, ILC>(b"1_", &o);
+            println!("internal+leading+consecutive separators (trailing NOT enabled): parse(\"1_\") = {r:?} (expected Err)");
+            if r.is_err() { 0 } else { 1 }
+        },
+        #[cfg(feature = "format")]
+        "f7" => {
+            use core::num::NonZeroU8;
+            const ITC: u128 = lexical_core::NumberFormatBuilder::new().digit_separator(NonZeroU8::new(b'_')).internal_digit_separator(true).trailing_digit_separator(true).consecutive_digit_separator(true).build_strict();
+            let o = lexical_core::ParseFloatOptions::new();
+            let r = lexical_core::parse_with_options::<f64, ITC>(b"._0", &o);
+            println!("internal+trailing+consecutive separators (leading NOT enabled): parse(\"._0\") = {r:?} (expected Err)");
+            if r.is_err() { 0 } else { 1 }
+        },
         _ => { eprintln!("unknown witness"); 2 },
     };
     std::process::exit(if code > 0 { 1 } else { 0 });
